@@ -429,16 +429,29 @@ def c08_cfi(run, v1, ed):
             droppable[".cfi_endproc"] += 1
             for d in inner:
                 droppable[d] += 1
+    # what the patches themselves bring (a patch inserted outside every procedure loses its directives: between 0 and all of them)
+    from . import scen as _scen
+    brought = collections.Counter()
+    for (pos, l, pb, pn, i, t) in ed.mods:
+        if pn is not None:
+            for line in _scen.PATCHES[pn][0].split("\n"):
+                if line.startswith(".cfi_"):
+                    brought[line.split()[0]] += 1
     for d in (".cfi_startproc", ".cfi_endproc", ".cfi_remember_state", ".cfi_restore_state"):
-        lo_, hi_ = k0.get(d, 0) - droppable.get(d, 0), k0.get(d, 0)
+        lo_, hi_ = k0.get(d, 0) - droppable.get(d, 0), k0.get(d, 0) + brought.get(d, 0)
         if not (lo_ <= k1.get(d, 0) <= hi_) or (droppable and k1.get(".cfi_startproc", 0) != k1.get(".cfi_endproc", 0)):
             pr.append(("C08/procedure-structure-directives-never-dropped", "%s: %d -> %d" % (d, k0.get(d, 0), k1.get(d, 0))))
     same_pos_before = collections.Counter()
+    label_directive_tail = {}       # position -> an earlier patch there ends in 'label: <CFI directive>'
     for (pos, l, pb, pn, i, t) in ed.mods:
         if pn is None:
             continue
         start = ed.out_before(pos) + same_pos_before[pos]
         same_pos_before[pos] += len(pb)
+        after_tail = label_directive_tail.get(pos, False)
+        _lines = _scen.PATCHES[pn][0].split("\n")
+        if len(_lines) >= 2 and _lines[-1].startswith(".cfi_") and _lines[-2].endswith(":"):
+            label_directive_tail[pos] = True
         # inside iff the insertion point was inside a procedure: state just before pos, or at pos, is a procedure state;
         # an insertion at the very end of a procedure (position of its .cfi_endproc) is covered as well
         # code inserted at the END of the block that carries the .cfi_endproc (same position) is placed before the directive and
@@ -459,7 +472,8 @@ def c08_cfi(run, v1, ed):
                 if all(offs):
                     o0, o2, o4 = (int(x.group(1)) for x in offs)
                     if o2 - o0 != 16 or o4 != o0:
-                        pr.append(("C08/patch-directives-take-effect-inside-a-procedure", "patch at %d: CFA offset %d before, %d after two adjustments of 8, %d after the patch" % (pos, o0, o2, o4)))
+                        pr.append(("C08/patch-directives-take-effect-inside-a-procedure", "patch at %d: CFA offset %d before, %d after two adjustments of 8, %d after the patch%s" % (
+                            pos, o0, o2, o4, " [registered after a patch at the same position whose text ends in 'label: CFI directive']" if after_tail else "")))
             if pn == "cfi" and len(pb) >= 2 and c1.get(start) is not None and c1.get(start + 1) is not None:
                 s0, s1 = c1[start], c1[start + 1]
                 if s0[0] == s1[0]:
